@@ -2,14 +2,19 @@
    another network is refused.
    Only statements closed by [exact lemma], non-vacuity examples, refutation witnesses of the classes
    excluded by a guard, and Print Assumptions.
-   [fx : fixes] says which of the three repairs (fixes/C05-1..3) the code has; every theorem holds for
-   every [fx], with the guard that names the failing class exactly when the repair is absent.
+   [fx : fixes] says which of the three repairs (fixes/C05-1..3) the code has and what happens to binary arguments
+   on their way in ([fx_tb]: encoding.to_bytes as it is = [lib_to_bytes], or the identity); every theorem holds for
+   every [fx], with the guard that names the failing class exactly when the repair is absent:
+   [hex_guard fx d] = binary arguments are taken as they are, or to_bytes is as it is and the payload of [d] does not
+   read as hexadecimal text (known class ascii_hex_payload, refuted below without the guard).
    [H160] is hash160 (any function: no theorem depends on what it returns). *)
 From Coq Require Import ZArith List Bool String.
 From Coq.Strings Require Import Byte.
 From Verif Require Import Lib.Bytes Gen.GenNetworks Gen.GenConsts Model.Wire Model.AddrScript.
 From Verif Require Import Proofs.AddrScriptSpec Proofs.AddrScriptTac Proofs.AddrScriptStr Proofs.AddrScriptObj
-     Proofs.AddrScriptParse Proofs.AddrScriptInv Proofs.AddrScriptAll.
+     Proofs.AddrScriptParse Proofs.AddrScriptInv Proofs.AddrScriptHd Proofs.AddrScriptHints Proofs.AddrScriptAll
+     Proofs.AddrScriptDataType.
+From Verif Require Import Gen.GenDataType.
 From Verif Require Import Model.SpecNetworks Proofs.SpecNetworksGlue.
 Import ListNotations.
 Open Scope Z_scope.
@@ -42,29 +47,29 @@ Proof. exact lock_is_spec_str. Qed.
 (* public_hash= with script_type= (and witver= for p2tr) *)
 Theorem lib_lock_is_spec_hash : forall H160 fx net d,
   In net all_networks -> standard d = true ->
-  (fx_witver fx = true \/ cls_witver_obj d = false) ->
+  (fx_witver fx = true \/ cls_witver_obj d = false) -> hex_guard fx d ->
   out_is (lib_out_hash H160 fx net (d_payload d) (Some (stype_name (d_stype d))) (d_witver d) None)
          (spec_lock_script d) (stype_name (d_stype d)) (nw_name net) (OaIs (spec_address net d)).
-Proof. exact lock_is_spec_hash. Qed.
+Proof. exact lock_is_spec_hash_g. Qed.
 
 (* Address(hashed_data=, script_type=, witver=, network=net) object: its address is the standard one, and the
    output built from it is locked to it *)
 Theorem lib_lock_is_spec_address_object : forall H160 fx net d,
   In net all_networks -> standard d = true ->
-  (fx_witver fx = true \/ cls_witver_obj d = false) ->
-  match lib_address_new H160 (d_payload d) None (Some (stype_name (d_stype d))) None None (d_witver d) net with
+  (fx_witver fx = true \/ cls_witver_obj d = false) -> hex_guard fx d ->
+  match lib_address_new H160 fx (d_payload d) None (Some (stype_name (d_stype d))) None None (d_witver d) net with
   | Some ao =>
     ao_addr ao = spec_address net d /\
     out_is (lib_out_addr_obj H160 fx net ao)
            (spec_lock_script d) (stype_name (d_stype d)) (nw_name net) (OaIs (spec_address net d))
   | None => False
   end.
-Proof. exact lock_is_spec_obj. Qed.
+Proof. exact lock_is_spec_obj_g. Qed.
 
 (* Address.parse(s, network=net) object: it denotes the address it was parsed from *)
 Theorem lib_lock_is_spec_address_parse : forall H160 fx net d,
   In net all_networks -> standard d = true ->
-  (fx_witver fx = true \/ cls_witver_parse d = false) ->
+  (fx_witver fx = true \/ cls_witver_parse d = false) -> hex_guard fx d ->
   match lib_address_parse H160 fx (spec_address net d) (Some (nw_name net)) with
   | Some ao =>
     ao_addr ao = spec_address net d /\
@@ -72,12 +77,12 @@ Theorem lib_lock_is_spec_address_parse : forall H160 fx net d,
            (spec_lock_script d) (stype_name (d_stype d)) (nw_name net) (OaIs (spec_address net d))
   | None => False
   end.
-Proof. exact lock_is_spec_parse. Qed.
+Proof. exact lock_is_spec_parse_g. Qed.
 
 (* Address.parse(s) without a network (the object belongs to the first network that has the prefix) *)
 Theorem lib_lock_is_spec_address_parse_any_network : forall H160 fx net d,
   In net all_networks -> standard d = true ->
-  fx_witver fx = true -> fx_netobj fx = true ->
+  fx_witver fx = true -> fx_netobj fx = true -> hex_guard fx d ->
   match lib_address_parse H160 fx (spec_address net d) None with
   | Some ao =>
     ao_addr ao = spec_address net d /\
@@ -85,21 +90,44 @@ Theorem lib_lock_is_spec_address_parse_any_network : forall H160 fx net d,
            (spec_lock_script d) (stype_name (d_stype d)) (nw_name net) (OaIs (spec_address net d))
   | None => False
   end.
-Proof. exact lock_is_spec_parse_nonet. Qed.
+Proof. exact lock_is_spec_parse_nonet_g. Qed.
 
 (* ---------- a standard locking script is reported with exactly the corresponding address and type
               (Output(lock_script=s, network=net).address / .script_type; the real parser with its
               heuristics included) ---------- *)
 Theorem lib_inverse : forall H160 fx net d,
-  In net all_networks -> standard d = true ->
+  In net all_networks -> standard d = true -> hex_guard fx d ->
   out_is (lib_out_script H160 fx net (spec_lock_script d))
          (spec_lock_script d) (stype_name (d_stype d)) (nw_name net) (OaIs (spec_address net d)).
-Proof. exact lib_inverse_script. Qed.
+Proof. exact lib_inverse_script_g. Qed.
+
+(* the same through Transaction.parse of a raw transaction that pays to the script *)
+Theorem lib_inverse_tx : forall H160 fx net d,
+  In net all_networks -> standard d = true -> hex_guard fx d ->
+  out_is (lib_out_tx H160 fx net (spec_lock_script d))
+         (spec_lock_script d) (stype_name (d_stype d)) (nw_name net) (OaIs (spec_address net d)).
+Proof. exact lib_inverse_tx_g. Qed.
+
+(* an output carrying the standard script of [d], however it was created, comes back from Transaction.raw() /
+   Transaction.parse() as the output of [d]; in particular address -> add_output -> raw -> parse reports the address *)
+Theorem lib_reparse_is_destination : forall H160 fx net d r st nm a,
+  In net all_networks -> standard d = true -> hex_guard fx d ->
+  out_is r (spec_lock_script d) st nm a ->
+  out_is (lib_reparse H160 fx net r)
+         (spec_lock_script d) (stype_name (d_stype d)) (nw_name net) (OaIs (spec_address net d)).
+Proof. exact lib_reparse_standard. Qed.
+
+Theorem lib_address_tx_roundtrip : forall H160 fx net d,
+  In net all_networks -> standard d = true ->
+  (fx_witver fx = true \/ cls_witver_str d = false) -> hex_guard fx d ->
+  out_is (lib_reparse H160 fx net (lib_out_addr_str H160 fx net (spec_address net d)))
+         (spec_lock_script d) (stype_name (d_stype d)) (nw_name net) (OaIs (spec_address net d)).
+Proof. exact lib_tx_roundtrip. Qed.
 
 (* the two directions are inverse to each other *)
 Theorem lib_directions_inverse : forall H160 fx net d,
   In net all_networks -> standard d = true ->
-  (fx_witver fx = true \/ cls_witver_str d = false) ->
+  (fx_witver fx = true \/ cls_witver_str d = false) -> hex_guard fx d ->
   lib_script_to_address H160 fx net (spec_lock_script d) = Some (spec_address net d, stype_name (d_stype d)) /\
   lib_output_script H160 fx net (spec_address net d) = Some (spec_lock_script d).
 Proof. exact lib_roundtrip. Qed.
@@ -110,6 +138,54 @@ Theorem lib_script_identifies_destination : forall H160 fx net d d',
   lib_output_script H160 fx net (spec_address net d) = lib_output_script H160 fx net (spec_address net d') ->
   d = d'.
 Proof. exact lib_script_identifies. Qed.
+
+(* ---------- key objects: HDKey(..., network=net, witness_type=w, multisig=ms) as the destination.  Its address is the
+              standard address of the destination the key stands for (single-signature: P2PKH / P2WPKH / P2SH-P2WPKH of
+              the key; multisig cosigner key: P2SH / P2WSH / P2SH-P2WSH), and the output built from the OBJECT is
+              locked with exactly that destination's script and reports its type ---------- *)
+Theorem lib_lock_is_spec_hdkey : forall H160 fx net w ms h160 s256 pub,
+  (forall x, List.length (H160 x) = 20%nat) ->
+  In net all_networks -> List.length h160 = 20%nat -> List.length s256 = 32%nat -> pub <> [] ->
+  tb_leaves fx (hd_leaves H160 w h160 s256 pub) ->
+  match lib_hd_address_obj H160 fx net w ms h160 s256 with
+  | Some ao =>
+    ao_addr ao = spec_address net (spec_hd_dest H160 w ms h160 s256) /\
+    out_is (lib_out_hd H160 fx net ao pub w ms)
+           (spec_lock_script (spec_hd_dest H160 w ms h160 s256))
+           (stype_name (d_stype (spec_hd_dest H160 w ms h160 s256))) (nw_name net)
+           (OaIs (spec_address net (spec_hd_dest H160 w ms h160 s256)))
+  | None => False
+  end.
+Proof. exact lock_is_spec_hd_g. Qed.
+
+(* ---------- an address string given TOGETHER WITH a public key (a hint): with the repair fixes/C05-4 the address
+              decides the locking script whatever the key is, and an address of another network is refused ---------- *)
+Theorem address_decides_next_to_public_key : forall H160 fx net d pub,
+  In net all_networks -> standard d = true ->
+  (fx_witver fx = true \/ cls_witver_str d = false) ->
+  fx_addrpk fx = true -> tb_leaves fx [pub] ->
+  out_is (lib_out_addr_pubkey H160 fx net (spec_address net d) pub)
+         (spec_lock_script d) (stype_name (d_stype d)) (nw_name net) OaGiven.
+Proof. exact lock_is_spec_addr_pubkey_g. Qed.
+
+Theorem foreign_network_refused_next_to_public_key : forall H160 fx A B d pub,
+  In A all_networks -> In B all_networks ->
+  addr_on_network B (spec_address A d) = false ->
+  fx_addrpk fx = true -> tb_leaves fx [pub] ->
+  lib_out_addr_pubkey H160 fx B (spec_address A d) pub = RErr.
+Proof. exact foreign_refused_addr_pubkey_g. Qed.
+
+(* ---------- the parser's push classifier (signature / key / data / other), as modelled, is the one of the working tree
+              on the regenerated grid of probes; 20- and 32-byte pushes are plain data whatever they contain ---------- *)
+Theorem push_classifier_is_modelled : data_type_disagreements = [].
+Proof. exact data_type_table_agrees. Qed.
+
+Theorem hash_pushes_are_data : forall d, (blen d =? 20) || (blen d =? 32) = true -> get_data_type d = DData.
+Proof. exact gdt_hash. Qed.
+
+(* to_bytes as modelled leaves every byte string alone that does not read as hexadecimal text *)
+Theorem to_bytes_only_touches_hex_text : forall x, hexlike x = false -> lib_to_bytes x = x.
+Proof. exact to_bytes_id. Qed.
 
 (* ---------- an address that carries none of the transaction network's prefixes is refused ---------- *)
 Theorem foreign_network_refused : forall H160 fx A B d,
@@ -153,6 +229,16 @@ Example standard_inhabited :
   cls_witver_str (mkdest P2tr 1 ex32) = false /\ In nw_bitcoin all_networks.
 Proof. repeat split; try (vm_compute; reflexivity). vm_compute. tauto. Qed.
 
+Example hex_guard_inhabited :
+  hex_guard fx_all (mkdest P2pkh 0 (repeat x61 20)) /\ hex_guard fx_now (mkdest P2pkh 0 ex20) /\
+  hex_guard fx_now (mkdest P2tr 1 (x30 :: x1d :: repeat x02 30)) /\ hex_guard fx_orig (mkdest P2wsh 0 ex32) /\
+  tb_leaves fx_now (hd_leaves no_hash WP2shSegwit ex20 ex32 (x02 :: ex32)) /\
+  (forall x, List.length (no_hash x) = 20%nat).
+Proof.
+  split; [left; intros x; reflexivity|].
+  repeat split; try (right; split; [reflexivity | vm_compute; reflexivity]).
+Qed.
+
 Example repaired_v2_script :
   lib_output_script no_hash fx_all nw_bitcoin (DBech [x62; x63] 2 ex32) = Some (x52 :: x20 :: ex32) /\
   lib_output_script no_hash fx_all nw_bitcoin (DBech [x62; x63] 16 ex20) = Some (x60 :: x14 :: ex20).
@@ -195,16 +281,58 @@ Proof. vm_compute. split; reflexivity. Qed.
 
 (* a p2sh-segwit Address object: native segwit script keyed by the redeem script hash instead of the P2SH script *)
 Example p2sh_segwit_address_object_refuted :
-  match lib_address_new no_hash ex20 None (Some s_p2sh_p2wpkh) None None 0 nw_bitcoin with
-  | Some o => ao_addr o = DB58 [x05] (repeat x09 20) /\
+  match lib_address_new no_hash fx_orig ex20 None (Some s_p2sh_p2wpkh) None None 0 nw_bitcoin with
+  | Some o => ao_addr o = DB58 [x05] (repeat x99 20) /\
               (match lib_out_addr_obj no_hash fx_orig nw_bitcoin o with ROk r => Some (o_lock r) | _ => None end)
-                = Some (x00 :: x14 :: repeat x09 20) /\
+                = Some (x00 :: x14 :: repeat x99 20) /\
               (match lib_out_addr_obj no_hash fx_all nw_bitcoin o with ROk r => Some (o_lock r) | _ => None end)
-                = Some (spec_lock_script (mkdest P2sh 0 (repeat x09 20)))
+                = Some (spec_lock_script (mkdest P2sh 0 (repeat x99 20)))
   | None => False
   end.
 Proof. vm_compute. repeat split; reflexivity. Qed.
 
+
+(* a payload that reads as hexadecimal text (here 20 times the letter 'a'): the standard P2PKH script is reported with
+   the address of the 10 bytes aa..aa, Output(public_hash=) locks to those 10 bytes, the P2WPKH script gets no address
+   at all; 20 blanks are reported with the address of hash160(b'') *)
+Example ascii_hex_payload_refuted :
+  cls_ascii_hex (mkdest P2pkh 0 (repeat x61 20)) = true /\
+  (match lib_out_script no_hash fx_now nw_bitcoin (spec_lock_script (mkdest P2pkh 0 (repeat x61 20))) with
+   | ROk o => Some (o_stype o, o_addr o) | _ => None end) = Some (s_p2pkh, OaIs (DB58 [x00] (repeat xaa 10))) /\
+  (match lib_out_hash no_hash fx_now nw_bitcoin (repeat x61 20) (Some s_p2pkh) 0 None with
+   | ROk o => Some (o_lock o) | _ => None end) = Some (x76 :: xa9 :: x0a :: repeat xaa 10 ++ [x88; xac]) /\
+  (match lib_out_script no_hash fx_now nw_bitcoin (spec_lock_script (mkdest P2wpkh 0 (repeat x61 20))) with
+   | ROk o => Some (o_stype o, o_addr o) | _ => None end) = Some (s_p2wpkh, OaErr) /\
+  (match lib_out_script no_hash fx_now nw_bitcoin (spec_lock_script (mkdest P2pkh 0 (repeat x20 20))) with
+   | ROk o => Some (o_addr o) | _ => None end) = Some (OaIs (DB58 [x00] (no_hash []))) /\
+  (match lib_out_script no_hash fx_all nw_bitcoin (spec_lock_script (mkdest P2pkh 0 (repeat x61 20))) with
+   | ROk o => Some (o_addr o) | _ => None end) = Some (OaIs (spec_address nw_bitcoin (mkdest P2pkh 0 (repeat x61 20)))).
+Proof. vm_compute. repeat split; reflexivity. Qed.
+
+(* the code as it is: a P2PKH address next to a public key is locked with the P2WPKH script of the key (the address is
+   reported unchanged), and a testnet address next to a public key is accepted on a bitcoin transaction *)
+Example address_with_public_key_refuted :
+  (match lib_out_addr_pubkey no_hash fx_now nw_bitcoin (DB58 [x00] ex20) (x02 :: ex32) with
+   | ROk o => Some (o_lock o, o_stype o, o_addr o) | _ => None end)
+    = Some (x00 :: x14 :: repeat x99 20, s_p2wpkh, OaGiven) /\
+  spec_lock_script (mkdest P2pkh 0 ex20) = x76 :: xa9 :: x14 :: ex20 ++ [x88; xac] /\
+  refused (lib_out_addr_pubkey no_hash fx_now nw_bitcoin (DBech [x74; x62] 0 ex20) (x02 :: ex32)) = false /\
+  refused (lib_out_addr_pubkey no_hash fx_all nw_bitcoin (DBech [x74; x62] 0 ex20) (x02 :: ex32)) = true /\
+  (match lib_out_addr_pubkey no_hash fx_all nw_bitcoin (DB58 [x00] ex20) (x02 :: ex32) with
+   | ROk o => Some (o_lock o, o_stype o) | _ => None end) = Some (x76 :: xa9 :: x14 :: ex20 ++ [x88; xac], s_p2pkh).
+Proof. vm_compute. repeat split; reflexivity. Qed.
+
+(* a multisig HD key: legacy -> P2SH of the key hash, segwit -> P2WSH of sha256(key) *)
+Example hdkey_multisig_destinations :
+  (match lib_hd_address_obj no_hash fx_now nw_bitcoin WLegacy true ex20 ex32 with
+   | Some ao => match lib_out_hd no_hash fx_now nw_bitcoin ao (x02 :: ex32) WLegacy true with
+                | ROk o => Some (o_lock o, o_stype o, o_addr o) | _ => None end
+   | None => None end) = Some (xa9 :: x14 :: ex20 ++ [x87], s_p2sh, OaIs (DB58 [x05] ex20)) /\
+  (match lib_hd_address_obj no_hash fx_now nw_bitcoin WSegwit true ex20 ex32 with
+   | Some ao => match lib_out_hd no_hash fx_now nw_bitcoin ao (x02 :: ex32) WSegwit true with
+                | ROk o => Some (o_lock o, o_stype o, o_addr o) | _ => None end
+   | None => None end) = Some (x00 :: x20 :: ex32, s_p2wsh, OaIs (DBech [x62; x63] 0 ex32)).
+Proof. vm_compute. split; reflexivity. Qed.
 
 (* --- tie of the address prefix tables: every row of networks.json as regenerated on this run, projected to the fields
        the properties depend on, equals the frozen specification table (reference-client chain parameters with the
@@ -227,6 +355,15 @@ Print Assumptions lib_lock_is_spec_address_object.
 Print Assumptions lib_lock_is_spec_address_parse.
 Print Assumptions lib_lock_is_spec_address_parse_any_network.
 Print Assumptions lib_inverse.
+Print Assumptions lib_inverse_tx.
+Print Assumptions lib_reparse_is_destination.
+Print Assumptions lib_address_tx_roundtrip.
+Print Assumptions lib_lock_is_spec_hdkey.
+Print Assumptions address_decides_next_to_public_key.
+Print Assumptions foreign_network_refused_next_to_public_key.
+Print Assumptions push_classifier_is_modelled.
+Print Assumptions hash_pushes_are_data.
+Print Assumptions to_bytes_only_touches_hex_text.
 Print Assumptions lib_directions_inverse.
 Print Assumptions lib_script_identifies_destination.
 Print Assumptions foreign_network_refused.
